@@ -263,7 +263,10 @@ func (e *Exec) execVec(c *Cmd, sl *slots) (string, bool, bool) {
 				} else {
 					cmd = fmt.Sprintf("%s engfail=%s:%d", base, op, n)
 					if n%2 == 0 {
-						cmd += " keep=1" // the earlier (fault-free) output is still at the path
+						// an earlier, complete output is at the path when the faulted merge starts
+						o0, _ := e.safeExec(parseLine(c.LineNo, base), sl, "")
+						lines = append(lines, base, "r "+o0)
+						cmd += " keep=1"
 					}
 					settle()
 					faiss.VerifResetCounters()
